@@ -807,6 +807,17 @@ class Interp:
                 return "<fmt>"
             if t is ast.BitOr:
                 return a | b
+        if t is ast.Mult and isinstance(a, list) and isinstance(b, Sym) and b.is_int:
+            items = list(a)
+            m = len(items)
+            if m == 0:
+                return []
+            return SymList(S.mul(b, m) if m != 1 else b, (lambda i: items[0]) if m == 1 else (lambda i: _select(items, S.mod(i, m))))
+        if t is ast.Add and isinstance(a, SymList) and isinstance(b, (SymList, list)):
+            bl = b if isinstance(b, SymList) else SymList(len(b), lambda i, _b=list(b): _select(_b, i))
+            la = a.length()
+            fa, fb = a.copy(), bl.copy()
+            return SymList(S.add(la, bl.length()), lambda i: _ite_any(S.cmp("<", i, la), fa.at(i), fb.at(S.sub(i, la))))
         if isinstance(a, (list, tuple)) and isinstance(b, Tensor):
             a = from_nested(a)
         if isinstance(b, (list, tuple)) and isinstance(a, Tensor):
@@ -938,7 +949,7 @@ class Interp:
             return self.dict_key(a) in b
         if isinstance(b, str):
             return a in b
-        if isinstance(b, (list, tuple, set)):
+        if isinstance(b, (list, tuple, set, frozenset)):
             conc = [x for x in b]
             if not isinstance(a, (Sym, Tensor)) and all(not isinstance(x, (Sym, Tensor)) for x in conc):
                 return any(self._eq_conc(a, x) for x in conc)
@@ -1581,6 +1592,8 @@ def make_builtins(I: Interp):
         return mk
 
     def b_set(x=()):
+        if isinstance(x, SymList) and I.symbolic_length(x) is not None:
+            return SymSet(None, symlist=x.copy())
         items = I.concrete_iter(x, "set()")
         if any(isinstance(unwrap(i), z3.ExprRef) for i in items):
             return SymSet(items)
@@ -1611,7 +1624,7 @@ def make_builtins(I: Interp):
         "any": b_any, "all": b_all, "zip": b_zip, "enumerate": b_enumerate, "list": b_list, "tuple": b_tuple,
         "sorted": b_sorted, "hasattr": b_hasattr, "getattr": b_getattr, "setattr": b_setattr,
         "callable": b_callable, "type": b_type, "divmod": b_divmod, "round": b_round, "str": b_str,
-        "set": b_set, "dict": b_dict, "pow": b_pow, "id": b_id, "iter": b_iter, "reversed": b_reversed,
+        "set": b_set, "frozenset": lambda x=(): frozenset(I.concrete_iter(x, "frozenset")), "dict": b_dict, "pow": b_pow, "id": b_id, "iter": b_iter, "reversed": b_reversed,
         "True": True, "False": False, "None": None, "object": Ext("object"), "callable_": None,
         "NotImplementedError": exc("NotImplementedError"), "ValueError": exc("ValueError"),
         "TypeError": exc("TypeError"), "AttributeError": exc("AttributeError"),
@@ -1626,10 +1639,32 @@ def make_builtins(I: Interp):
 class SymSet:
     """set of possibly-symbolic integers: only len() is supported (all-distinct test)"""
 
-    def __init__(self, items):
-        self.items = list(items)
+    def __init__(self, items, symlist=None):
+        self.items = list(items) if items is not None else None
+        self.symlist = symlist
 
     def length(self):
+        if self.symlist is not None:
+            # symbolic-length list: the count equals the length exactly when all entries are pairwise distinct
+            L = self.symlist
+            n = L.length()
+            c = ctx()
+            cnt = c.fresh("setlen", "Int")
+            c.defs.append(z3.And(cnt >= 0, cnt <= S.z(n), z3.Implies(S.z(n) > 0, cnt >= 1)))
+            c.add_forall((n, n), lambda i, j: z3.Implies(z3.And(cnt == S.z(n), S.z(i) != S.z(j)),
+                                                        S.z(L.at(i)) != S.z(L.at(j))), "set-distinct")
+            # conversely a smaller count has a witness pair of equal entries
+            w1, w2 = c.fresh("dup_a", "Int"), c.fresh("dup_b", "Int")
+            c.mark_nonneg(w1)
+            c.mark_nonneg(w2)
+            c.add_index_term(w1)
+            c.add_index_term(w2)
+            c.defs.append(z3.Implies(cnt != S.z(n), z3.And(w1 >= 0, w1 < S.z(n), w2 >= 0, w2 < S.z(n), w1 != w2,
+                                                           S.z(L.at(Sym(w1))) == S.z(L.at(Sym(w2))))))
+            return Sym(cnt)
+        return self._length_concrete()
+
+    def _length_concrete(self):
         # number of distinct values: len(items) iff pairwise distinct; otherwise smaller.  We return a
         # symbolic count defined by pairwise-distinctness.
         n = len(self.items)
